@@ -44,7 +44,7 @@ var errorConstructor = map[string]bool{"fmt.Errorf": true, "errors.New": true, "
 	"iface:context.Context.Err": true, "iface:ltx.FileIterator.Err": false}
 
 func cleanupLike(name string) bool {
-	for _, s := range []string{".Close", ".Remove", ".RemoveAll", ".Rollback", "rollback", ".UnlockFile", ".Stop", ".CloseWithError", "releaseReadLock", ".close"} {
+	for _, s := range []string{".Close", ".Remove", ".RemoveAll", ".Rollback", "rollback", ".UnlockFile", ".Stop", ".CloseWithError", "releaseReadLock", ".close", "UnlockFileEx", ".Unlock", ".RUnlock"} {
 		if strings.HasSuffix(name, s) {
 			return true
 		}
